@@ -7,6 +7,7 @@ CONSTANTS
     BgAllFiles = TRUE
     WaitHonoursTimeout = TRUE
     ThresholdOnEffective = TRUE
+    FailOnCacheError = TRUE
     AllowReg = TRUE
 INIT GenInit
 NEXT GenNext
